@@ -592,8 +592,8 @@ def gen_lock(tier_list, repo, only_props=None):
             ids |= set(k['obligation'].split('@')[0] for k in ev['coverage']['known_findings'])
             lock.setdefault(prop, {})[tier] = sorted(ids)
             log('lock[%s][%s] = %d ids (rc=%d)' % (prop, tier, len(ids), rc))
-    with open(LOCK, 'w') as f:
-        json.dump(lock, f, indent=1, sort_keys=True)
+            with open(LOCK, 'w') as f:
+                json.dump(lock, f, indent=1, sort_keys=True)
 
 
 def main():
